@@ -280,7 +280,8 @@ func genAllocC19(c *genCtx, sw *shardWriter, j *jb) {
 		run("DecodeFloat64", []byte(" "+s+","), nil, nil, 0, 0)
 	}
 	for _, s := range []string{"true", "false", " true", "false,", "null", " null ", "nullx"} {
-		for _, fn := range []string{"ReadBool", "DecodeBool", "ReadNull", "NextToken", "NextTokenType", "DecodeInt64", "DecodeFloat64", "DecodeUint32"} {
+		for _, fn := range []string{"ReadBool", "DecodeBool", "ReadNull", "NextToken", "NextTokenType", "DecodeInt64", "DecodeFloat64", "DecodeUint32",
+			"DecodeInt32", "DecodeInt", "DecodeUint64", "DecodeUint"} {
 			run(fn, []byte(s), nil, nil, 0, 0)
 		}
 	}
@@ -507,6 +508,11 @@ var memShapes = append(bigThenSmallShapes(), []memShape{
 	{"many_numbers_long_mantissa", func(n int) []seg {
 		return []seg{{[]byte("["), 1}, {[]byte("1.00000000000000011102230246251565404236316680908203125,"), n}, {[]byte("0]"), 1}}
 	}},
+	{"unicode_escapes_at_every_nesting_level", func(n int) []seg { return nestSegs(`["\u00e9",`, "1", "]", n) }},
+	{"unicode_escaped_keys_at_every_level", func(n int) []seg { return nestSegs(`{"\u00e9":`, "1", "}", n) }},
+	{"surrogate_pairs_at_every_nesting_level", func(n int) []seg { return nestSegs(`{"k":["\ud83d\ude00",`, "1", "]}", n) }},
+	{"escapes_many_unicode_escaped_strings", func(n int) []seg { return []seg{{[]byte("["), 1}, {[]byte(`"\u00e9",`), n}, {[]byte(`1]`), 1}} }},
+	{"escapes_many_unicode_escaped_keys", func(n int) []seg { return []seg{{[]byte("{"), 1}, {[]byte(`"\u00e9":"x\u0041",`), n}, {[]byte(`"z":1}`), 1}} }},
 	{"escapes_wide_in_objects", func(n int) []seg { return []seg{{[]byte("{"), 1}, {[]byte(`"\t":"\n",`), n}, {[]byte(`"z":1}`), 1}} }},
 }...)
 
@@ -539,7 +545,8 @@ func genMemC20(c *genCtx, sw *shardWriter, j *jb) {
 			if isStr != (sh.name == "long_string_of_surrogate_pairs") && (isStr || sh.name == "long_string_of_surrogate_pairs") {
 				continue // the string readers read the bare-string shape; the other functions everything else
 			}
-			if fi > 0 && !isStr && !(strings.HasPrefix(sh.name, "nested") || sh.name == "ints" || strings.HasPrefix(sh.name, "escapes_at") || strings.HasPrefix(sh.name, "long_")) {
+			if fi > 0 && !isStr && !(strings.HasPrefix(sh.name, "nested") || sh.name == "ints" || strings.HasPrefix(sh.name, "escapes_at") || strings.HasPrefix(sh.name, "long_") ||
+				strings.HasPrefix(sh.name, "unicode_esc") || strings.HasPrefix(sh.name, "surrogate_pairs_at")) {
 				continue
 			}
 			setCurrent("mem " + sh.name + " " + fn.name)
